@@ -211,6 +211,9 @@ func cmdHist(args []string) int {
 	if f.Extra["adversarial"] == "1" {
 		prof.AdversarialKV = true
 	}
+	if v, ok := f.Extra["scripts"]; ok { // percentage of creates whose script also sets metadata
+		fmt.Sscan(v, &prof.ScriptsPct)
+	}
 	mon := monitorsFor(f.Extra["monitors"])
 	via, viaKind := f.Extra["via"], f.Extra["monitors"]
 	if via == "http" || via == "http1" {
@@ -251,6 +254,22 @@ func cmdHist(args []string) int {
 				nok++
 			}
 			out.Stats["op_"+ops[i].Kind]++
+			if ops[i].Script {
+				out.Stats["op_script_create"]++
+				if r.Class == "none" {
+					out.Stats["script_create_ok"]++
+					if len(ops[i].SAccMeta) > 0 && len(ops[i].AccMeta) > 0 {
+						for a := range ops[i].SAccMeta {
+							if _, both := ops[i].AccMeta[a]; both {
+								out.Stats["script_create_ok_same_account_both_sides"]++
+							}
+						}
+					}
+					if r.Hit {
+						out.Stats["script_create_replay_hit"]++
+					}
+				}
+			}
 		}
 		if nok >= 2 {
 			out.Stats["distinct_nontrivial"]++
@@ -323,6 +342,16 @@ func parseHistCase(line string) (Feat, []Op) {
 				o.TgtAcc = t.List[1].Atom
 			} else {
 				o.TxID = atoi(t.List[1].Atom)
+			}
+		}
+		if o.Kind == "script" {
+			o.Kind, o.Script = "create", true
+			o.SMeta = parseKV(in.List[7])
+			if len(in.List[8].List) > 0 {
+				o.SAccMeta = map[string][]KV{}
+				for _, am := range in.List[8].List {
+					o.SAccMeta[am.List[0].Atom] = parseKV(am.List[1])
+				}
 			}
 		}
 		switch o.Kind {
